@@ -179,6 +179,19 @@ def required_version(units):
     return v
 
 
+# explicit extended transform parameters of each transform variant as they must be coded:
+# (asym_transform_index_flag, wavelet_index_ho, asym_transform_flag, dwt_depth_ho); omitted values
+# take the documented defaults (wavelet_index_ho 4 = haar_with_shift, dwt_depth_ho 0)
+ETP_EXPLICIT = {
+    "asym_index": (True, 1, False, None),
+    "asym_depth": (False, None, True, 1),
+    "etp_neutral": (False, None, False, None),
+    "index_flag_only_wi1": (True, 4, False, None),
+    "index_flag_only": (True, 4, False, None),
+    "depth_flag_only": (False, None, True, 0),
+}
+
+
 def read_uint(bits, pos):
     v = 1
     while bits[pos] == "0":
@@ -205,6 +218,7 @@ def check(seqs, data):
         need = required_version(units)
         coded_version = None
         auto_version = False
+        explicit_version = None
         for j, (kind, npo, ppo, pn, mv, feat, tr) in enumerate(units):
             off = positions[k]
             end = positions[k + 1] if k + 1 < len(positions) else len(data)
@@ -256,9 +270,29 @@ def check(seqs, data):
                     problems.append("unit %d: minor_version/profile/level %r do not equal explicit/default values" % (k, (got_minor, got_profile, got_level)))
                 if coded_version is None:
                     coded_version = got_mv
+                explicit_version = mv if mv not in ("omit", "auto") else None
                 minv = 3 if feat in V3_FEATURES else 1
                 a["header"] = data[off + 13 : end]
                 a["hdr"] = {"major_version": got_mv, "profile": got_profile, "level": got_level, "fields": False, "min_version": minv}
+            if kind in ("PIC", "FRAG0") and tr in ETP_EXPLICIT and explicit_version == 3 and coded_version == 3:
+                # explicit extended transform parameters under an explicit version 3: the flags
+                # (and values) given must be the ones coded, symmetric or not
+                start = off + 17 if kind == "PIC" else off + 21
+                bits = B.bytes_to_bits(data[start : start + 8])
+                _wi, pos = read_uint(bits, 0)
+                _dd, pos = read_uint(bits, pos)
+                f1 = bits[pos] == "1"
+                pos += 1
+                ho = None
+                if f1:
+                    ho, pos = read_uint(bits, pos)
+                f2 = bits[pos] == "1"
+                pos += 1
+                dho = None
+                if f2:
+                    dho, pos = read_uint(bits, pos)
+                if (f1, ho, f2, dho) != ETP_EXPLICIT[tr]:
+                    problems.append("unit %d (%s): explicit extended transform parameters %s coded as (index flag, wavelet_index_ho, depth flag, dwt_depth_ho) = %r, expected %r" % (k, kind, tr, (f1, ho, f2, dho), ETP_EXPLICIT[tr]))
             abstract.append(a)
             k += 1
     return problems, abstract
